@@ -206,6 +206,27 @@ func lexExtras(c *Ctx, nRandom int, f func(s string)) {
 			emit(strings.ReplaceAll(f, "%s", x))
 		}
 	}
+	// every code point (surrogates as their 3-byte encodings too) between two tokens: whitespace characters must be
+	// skipped, everything else outside a literal is the lexer's to reject or not, but never to mis-tile
+	for cp := 0x80; cp <= 0x10FFFF; cp++ {
+		var x string
+		if cp >= 0xD800 && cp <= 0xDFFF {
+			x = string([]byte{0xED, byte(0x80 | (cp>>6)&0x3F), byte(0x80 | cp&0x3F)})
+		} else {
+			x = string(rune(cp))
+		}
+		emit("a" + x + "b")
+		emit("1 " + x + " ;")
+		if cp < 0x3100 || cp%16 == 0 {
+			emit(x)
+			emit("a" + x + " b")
+			emit("a " + x + "b")
+			emit("a" + x + "\n" + x + x + " b")
+			emit("'" + x + "'")
+			emit("/*" + x + "*/" + x)
+		}
+	}
+	c.Res.Exhaustive["every_code_point_between_two_tokens"] = true
 	// every code point written as a \u / \U escape in a string, and the 4-digit ones in a quoted identifier
 	for cp := 0; cp <= 0x110000; cp++ {
 		if cp <= 0xFFFF {
